@@ -37,4 +37,28 @@ theorem step_word (n : Nat) (s : St) (o : Nat) (prev : Char) (w rest : List Char
     simp [stdStep, hh, h1, h2, h3, h4, h5, h6, h7, h8, h9, h10, h11, h12, h13, h14, h15, h16, hd, hRaw, htw,
       tok1, Lx.value, Lx.text, Lx.skip, Lx.flag]
 
+
+theorem ops1_sep : ∀ c ∈ ops1, isSepOrSpace dflt c = true := by decide
+
+theorem ops1_notDigit : ∀ c ∈ ops1, isDigit c = false := by decide
+
+theorem step_op1 (n : Nat) (s : St) (o : Nat) (prev : Char) (c : Char) (rest : List Char)
+    (hok : (Lx.op1 c).OK) (hf : (Lx.op1 c).Follow rest) : StepsTo n s o prev (.op1 c) rest := by
+  refine ⟨c, [], rfl, ?_⟩
+  have hsep := ops1_sep c hok
+  have hnd := ops1_notDigit c hok
+  simp only [List.nil_append]
+  simp only [Lx.OK, ops1, List.mem_cons, List.not_mem_nil, or_false] at hok
+  cases rest with
+  | nil =>
+    rcases hok with rfl | rfl | rfl | rfl | rfl | rfl | rfl | rfl | rfl | rfl | rfl | rfl | rfl | rfl | rfl | rfl |
+      rfl | rfl | rfl | rfl | rfl | rfl | rfl | rfl <;>
+    simp [stdStep, joinLen, tok1, takeWord, hsep, hnd, peek, Lx.value, Lx.text, Lx.skip, Lx.flag]
+  | cons d r =>
+    have hd := hf d rfl
+    rcases hok with rfl | rfl | rfl | rfl | rfl | rfl | rfl | rfl | rfl | rfl | rfl | rfl | rfl | rfl | rfl | rfl |
+      rfl | rfl | rfl | rfl | rfl | rfl | rfl | rfl <;>
+    simp [join1] at hd <;>
+    simp [stdStep, joinLen, tok1, takeWord, hsep, hnd, hd, peek, Lx.value, Lx.text, Lx.skip, Lx.flag]
+
 end TfelVerif.C31
